@@ -110,6 +110,8 @@ impl WorkerMonitor {
                 newly_requested
             )
         });
+        #[cfg(mmtk_verif)]
+        crate::verif::sync_point("make_request.locked", 0);
         if newly_requested {
             self.notify_work_available(false);
         }
